@@ -411,6 +411,83 @@ def job_index_bounds(T, Fc, asc, a, b):
     return recs
 
 
+def job_shipped_bounded(kind, asc):
+    """the SHIPPED frequency profiles (real factories; exp / sinc / wofz uninterpreted) under a bounding range that need
+    not contain the line: bounded = unbounded restricted to the range -- a profile is a pointwise function of
+    (f, f_center), whatever columns it is evaluated on"""
+    from props.frame_common import paths, t_profiles, f_profiles
+    recs = []
+    tag = f"C06:shipped-bounded:{(kind, asc)}"
+    g = inject.GEOMS['g1']
+    T, Fc, a, b = 2, 5, 3, 5
+    f0, w = Sym(z3.Real('f_start')), Sym(z3.Real('width'))
+    fmin = g['fch1'] if asc else g['fch1'] - (Fc - 1) * g['df']
+    pre = [w.t >= RV(0.5 * g['df']), w.t <= RV(3 * g['df']), f0.t >= RV(fmin - g['df']), f0.t <= RV(fmin + Fc * g['df'])]
+    mk = dict(box=lambda: f_profiles.box_f_profile(w), sinc2=lambda: f_profiles.sinc2_f_profile(w), gaussian=lambda: f_profiles.gaussian_f_profile(w),
+              lorentzian=lambda: f_profiles.lorentzian_f_profile(w), voigt=lambda: f_profiles.voigt_f_profile(w, w),
+              multiple_gaussian=lambda: f_profiles.multiple_gaussian_f_profile(w))[kind]
+    pl = dict(fn='shipped_bounded', kind=kind, asc=asc)
+
+    def run():
+        out = []
+        for bounded in (True, False):
+            fr = make_frame(T, Fc, asc, Sym(RV(g['df'])), Sym(RV(g['dt'])), Sym(RV(g['fch1'])))
+            kw = dict(bounding_f_range=(fr.get_frequency(a), fr.get_frequency(b))) if bounded else {}
+            out.append(fr.add_signal(paths.constant_path(f0, 0), t_profiles.constant_t_profile(1), mk(), None, **kw))
+        return out
+    with frame_patches():
+        leaves = core.explore(run, pre, cap=60)
+    conds = []
+    for li, leaf in enumerate(leaves):
+        conds.append(leaf.cond())
+        base = pre + leaf.pc + leaf.side
+        name = f"{tag}:leaf{li}"
+        if leaf.kind == 'exc':
+            r, m = core.check(base, timeout_ms=30000)
+            recs.append(q(name + ':noexc', r, detail=repr(leaf.value)))
+            if r == 'sat':
+                recs.append(cex('C06:shipped-bounded:raise', f'{kind}: bounded injection raises {leaf.value!r}', pl, name=name + ':noexc'))
+            continue
+        sb, su = leaf.value
+        dis = []
+        for i in range(T):
+            for j in range(Fc):
+                want = lift(su[i, j]) if a <= j < b else RV(0)
+                d = z3.simplify(lift(sb[i, j]) - want, som=True)
+                if not (z3.is_rational_value(d) and d.numerator_as_long() == 0):
+                    dis.append(d != 0)
+        r, m = core.check(base + ([z3.Or(*dis)] if dis else [z3.BoolVal(False)]), timeout_ms=60000)
+        recs.append(q(name, r, by_solver=len(dis)))
+        if r == 'sat':
+            recs.append(cex('C06:shipped-bounded', f'{kind} profile: the bounded injection differs from the unbounded one restricted to the range', pl, name=name))
+        if li == 0:
+            # twin: a column inside the range is not the neighbouring column's value (the comparison has teeth)
+            recs.append(q(name + ':twin', core.check(base + [lift(sb[0, a]) != lift(su[0, a - 1])], timeout_ms=30000)[0], expect='sat'))
+    r, _ = core.check(pre + [z3.Not(z3.Or(*conds))], timeout_ms=30000)
+    recs.append(q(f"{tag}:split-complete", r, leaves=len(leaves)))
+    return recs
+
+
+def replay_shipped_bounded(p):
+    import setigen as stg
+    msgs = []
+    Fc = 64
+    for (centre, a, b) in ((20.3, 30, 50), (20.3, 0, 15), (70.0, 40, 64), (32.0, 28, 36)):
+        fr = stg.Frame(fchans=Fc, tchans=3, df=2.0, dt=4.0, fch1=4096.0, ascending=p['asc'], seed=1)
+        fu = stg.Frame(fchans=Fc, tchans=3, df=2.0, dt=4.0, fch1=4096.0, ascending=p['asc'], seed=1)
+        w = 9.0
+        prof = lambda: dict(box=lambda: stg.box_f_profile(w), sinc2=lambda: stg.sinc2_f_profile(w), gaussian=lambda: stg.gaussian_f_profile(w), lorentzian=lambda: stg.lorentzian_f_profile(w),
+                            voigt=lambda: stg.voigt_f_profile(w, w), multiple_gaussian=lambda: stg.multiple_gaussian_f_profile(w))[p['kind']]()
+        kw = dict(path=stg.constant_path(fr.fmin + centre * fr.df, 0.01), t_profile=stg.constant_t_profile(2.0), bp_profile=stg.constant_bp_profile(1.0))
+        sig = fr.add_signal(f_profile=prof(), bounding_f_range=(fr.get_frequency(a), fr.get_frequency(b)), **kw)
+        full = fu.add_signal(f_profile=prof(), **kw)
+        want = np.zeros_like(full)
+        want[:, a:b] = full[:, a:b]
+        if not np.allclose(sig, want, rtol=1e-10, atol=1e-300):
+            msgs.append(f"{p['kind']} centred at channel {centre}, bounded to [{a}, {b}): max {float(np.max(sig)):.4g}, the unbounded injection has max {float(np.max(want)):.4g} there")
+    return bool(msgs), '; '.join(msgs[:2]) or 'shipped profiles are confined pointwise'
+
+
 def replay_index_bounds(p):
     import setigen as stg
     msgs = []
@@ -641,7 +718,7 @@ def job_superpose(T, Fc, asc, smear, bound, tier):
     return recs
 
 
-REPLAYS = {'index_bounds': replay_index_bounds, 'add_signal': inject.replay_add_signal, 'superpose': replay_superpose, 'int_data': replay_int_data, 'failed': replay_failed, 'units_bounding': replay_units_bounding, 'noise_twin': replay_noise_twin}
+REPLAYS = {'shipped_bounded': replay_shipped_bounded, 'index_bounds': replay_index_bounds, 'add_signal': inject.replay_add_signal, 'superpose': replay_superpose, 'int_data': replay_int_data, 'failed': replay_failed, 'units_bounding': replay_units_bounding, 'noise_twin': replay_noise_twin}
 
 
 def main():
@@ -668,6 +745,8 @@ def main():
                 jobs.append(('job_int_data', (2, 3, asc, bound, smear)))
     for asc in (False, True):
         jobs.append(('job_noise_estimates_twin', (2, 3, asc)))
+        for kind_ in ('box', 'sinc2', 'gaussian', 'lorentzian', 'voigt', 'multiple_gaussian'):
+            jobs.append(('job_shipped_bounded', (kind_, asc)))
         for (a_, b_) in ((1, 3), (0, 5), (1, 2)):
             jobs.append(('job_index_bounds', (2, 3, asc, a_, b_)))
         for smear in (False, True):
